@@ -108,7 +108,7 @@ CHECKS = {
                             "W4 (last instance destroyed while another thread creates), W5 (concurrent creates kept alive; descriptors compared), W3/W2+/W1x3 with three threads",
                             "interleavings are explored at hooked points only; accesses between hooks are covered by the ThreadSanitizer monitor on the same schedules, not by further interleaving",
                             "sequentially consistent execution (one thread runs at a time); weak-memory effects only as far as TSan's happens-before model flags them"]},
-    "C15": {"runs": [{"name": "c15", "plan": "c15", "srcs": S, "san": "asan"},
+    "C15": {"runs": [{"name": "c15", "plan": "c15", "srcs": S, "san": "asan", "weight": 10, "opts": {"quick": {"isa_n": 12}}},
                      {"name": "states", "plan": "states", "srcs": H, "san": "asan", "opts": {"quick": {"slots": 3}, "thorough": {"slots": 4}}, "only_sites": r"history-dependent-output"},
                      {"name": "threads", "plan": "asan", "srcs": T_SRCS, "san": "asan", "hooks": True, "nosan": ("vsched.c",),
                       "opts": {"quick": {"bound": 1, "drivers": 2}, "thorough": {"bound": 2, "drivers": 5}}, "only_sites": r"result-differs-from-sequential"}],
